@@ -303,8 +303,88 @@ Not applicable (run-time values): resolution of references, nested CHOICE/SEQUEN
         ctx.floor("C07.bits/named-bit-callers", sites, 2);
     }
 
+    struct_values(m, ctx);
+    crate::rules::c06::named_first(m, ctx, "C07.named");
     oid(m, ctx, &ev);
     strings(m, ctx, &ev);
+}
+
+/// C07.struct: a SEQUENCE / SET value denotes, for every component, the value written for it and — only when none is
+/// written — the component's DEFAULT. The per-component closure of link_struct_like is evaluated on the four
+/// combinations (written?, has DEFAULT?).
+fn struct_values(m: &Model, ctx: &mut Ctx) {
+    let Some(f) = m.fns.iter().find(|f| f.name == "link_struct_like" && f.self_ty.as_deref() == Some("ASN1Value")) else {
+        ctx.fail_closed("C07.struct", "anchor not found: ASN1Value::link_struct_like");
+        return;
+    };
+    ctx.func(&f.key);
+    struct C {
+        out: Vec<syn::ExprClosure>,
+    }
+    impl model::DeepCb for C {
+        fn expr(&mut self, e: &syn::Expr) {
+            if let syn::Expr::Closure(c) = e {
+                let t = tok(&c.body);
+                if t.contains("StructLikeFieldValue::Explicit") && t.contains("StructLikeFieldValue::Implicit") {
+                    self.out.push(c.clone());
+                }
+            }
+        }
+    }
+    let mut c = C { out: vec![] };
+    model::deep_walk_block(&f.block, &mut c);
+    let Some(clo) = c.out.iter().min_by_key(|c| tok(*c).len()) else {
+        ctx.fail_closed("C07.struct", "link_struct_like: the per-component closure (Explicit / Implicit) was not found");
+        return;
+    };
+    let consts = const_resolver(m);
+    let hook = |_: &Evaluator, name: &str, a: &[Val]| -> Option<Result<Val, String>> {
+        match (name, a.first()) {
+            (".default", Some(Val::Ctor(n, p, _))) => Some(Ok(if n == "Default" { Val::some(p.first().cloned().unwrap_or(Val::Unit)) } else { Val::none() })),
+            (".clone", Some(v)) | (".as_ref", Some(v)) | (".to_owned", Some(v)) if a.len() == 1 => Some(Ok(v.clone())),
+            ("Box::new", Some(v)) => Some(Ok(v.clone())),
+            (".ok_or_else", Some(Val::Ctor(n, p, _))) if n == "Some" => Some(Ok(Val::Ctor("Ok".into(), vec![p.first().cloned().unwrap_or(Val::Unit)], BTreeMap::new()))),
+            (".ok_or_else", Some(Val::Ctor(n, _, _))) if n == "None" => Some(Ok(Val::Ctor("Err".into(), vec![Val::Str("no value".into())], BTreeMap::new()))),
+            (".map", Some(Val::Ctor(n, _, _))) if n == "Err" => Some(Ok(a[0].clone())),
+            _ => None,
+        }
+    };
+    let ev = Evaluator { consts: &consts, call_hook: &hook, inline: None };
+    let val_param = f.sig.inputs.iter().filter_map(|a| match a { syn::FnArg::Typed(t) => Some(tok(&t.pat)), _ => None }).next().unwrap_or("val".into());
+    for (written, has_default) in [(true, true), (false, true), (true, false), (false, false)] {
+        let key = format!("component written={} DEFAULT={}", written, has_default);
+        ctx.oblige("C07.struct", &key, true);
+        let mut mf = BTreeMap::new();
+        mf.insert("name".to_string(), Val::Str("x".into()));
+        mf.insert("ty".to_string(), Val::Opaque("ty".into()));
+        mf.insert("optionality".to_string(), if has_default { Val::Ctor("Default".into(), vec![Val::Sym("DEFAULT-3".into())], BTreeMap::new()) } else { Val::ctor("Required") });
+        let member = Val::Ctor("SequenceOrSetMember".into(), vec![], mf);
+        let mut env = Env::new();
+        let mut list = vec![Val::Tuple(vec![Val::some(Val::Str("other".into())), Val::Sym("OTHER".into())])];
+        if written {
+            list.push(Val::Tuple(vec![Val::some(Val::Str("x".into())), Val::Sym("WRITTEN-9".into())]));
+        }
+        env.insert(val_param.clone(), Val::List(list));
+        let want = if written { "Explicit(WRITTEN-9)" } else if has_default { "Implicit(DEFAULT-3)" } else { "<error>" };
+        match ev.apply_closure(&syn::Expr::Closure(clo.clone()), &[member], &env) {
+            Ok(r) => {
+                let got = match &r {
+                    Val::Ctor(ok, p, _) if ok == "Ok" => match p.first() {
+                        Some(Val::Tuple(t)) if t.len() == 3 => t[2].show(),
+                        Some(o) => o.show(),
+                        None => "?".into(),
+                    },
+                    Val::Ctor(e, _, _) if e == "Err" => "<error>".into(),
+                    o => o.show(),
+                };
+                if got != want {
+                    ctx.violate("C07.struct", &format!("component-value:written={},default={}", written, has_default), &f.file, span_line(clo),
+                        &format!("a SEQUENCE value in which component x is {} and x has {}: x gets `{}`, expected `{}` (the written value, and the DEFAULT only when none is written)", if written { "written (x WRITTEN-9)" } else { "omitted" }, if has_default { "DEFAULT-3" } else { "no DEFAULT" }, got, want));
+                }
+            }
+            Err(e) => ctx.fail_closed("C07.struct", &format!("[{}]: {}", key, e)),
+        }
+    }
 }
 
 fn oid(m: &Model, ctx: &mut Ctx, ev: &Evaluator) {
